@@ -21,7 +21,7 @@ import traceback
 from typing import Any, Callable, Dict, List, Optional
 
 VERIF = os.path.dirname(os.path.dirname(os.path.abspath(__file__)))
-WORK = os.path.join(VERIF, '.work')
+WORK = os.path.join(os.environ.get('VERIF_OUT') or VERIF, '.work', str(os.getpid()))
 
 EXIT_OK, EXIT_VIOLATION, EXIT_HARNESS = 0, 1, 3
 
@@ -87,6 +87,22 @@ def load_known(prop: str):
 
 
 # ------------------------------------------------------------------ exploration (child process)
+def make_twin(c: Cond) -> Cond:
+    """reachability twin: the same harness with `assert False` appended to every path on which the harness's own
+    assertions held; it MUST come back refuted (otherwise the condition is vacuous or the engine cannot report
+    failures for it), and its counterexample replayed on the real code must reach the end of the real harness"""
+    import dataclasses
+    fn = c.fn
+
+    def twin(K):
+        r = fn(K)
+        if r is False:
+            return True
+        K.cond = dataclasses.replace(K.cond, known=[])      # known-finding guards do not apply to the twin's own assertion
+        return K.fail('reachability twin: end of harness reached')
+    return dataclasses.replace(c, id=c.id + '#reach', fn=twin, twin=True, timeout=min(c.timeout, 120))
+
+
 def explore(cond: Cond, seed: int) -> dict:
     if cond.direct is not None:
         return run_direct(cond)
